@@ -4,5 +4,5 @@ CONSTANTS
   MaxDepth = 9
   Replica = {"A", "B"}
   MaxLog = 2
-INVARIANT Agree
+INVARIANTS Agree SnapIsCut
 CHECK_DEADLOCK FALSE
